@@ -871,6 +871,11 @@ pub fn run_check(tier_name: &str, seed: u64, verif_dir: &str) -> Outcome {
 
     // ---- report the violation with the smallest scenario index, minimised and replayed
     let n_viol = violations.len();
+    for (si, sc, v) in violations.iter().take(12) {
+        let text: String = sc.programs[v.program].files.iter().map(|f| f.text.clone()).collect::<Vec<_>>().join("\n---\n");
+        let interesting: Vec<&str> = text.lines().filter(|l| l.contains('{') || l.contains(" isa ")).take(6).collect();
+        println!("  violation in scenario {si}: {} {} [{}] lines: {:?}", v.class, v.detail.chars().take(160).collect::<String>(), sc.programs[v.program].label, interesting);
+    }
     let mut replay_path = String::new();
     if let Some((_, sc, v)) = violations.iter().min_by_key(|(i, _, _)| *i).cloned() {
         let mut budget = 400usize;
